@@ -175,10 +175,12 @@ CHECKS.update({
             "hypothesis, each class named once, is derived for every accepted query string: C03_accepted_un_rcs_nodup) and nothing valid "
             "is omitted: WITHOUT SHARING PROVIDERS THE PIPELINE RETURNS EXACTLY THE PROPERTY'S SET FOR EVERY QUERY (C03_no_sharing_exact, "
             "C03_no_sharing_verdict); WITH sharing providers too, on every table whose aggregate associations name existing providers (an "
-            "invariant of reachable states, C03_reachable_aggs_wf) everything returned is a valid combination (C03_sound); from the query string (Model/DecodeQC.v: regenerated query schemas + the lib.py request-group "
+            "invariant of reachable states, C03_reachable_aggs_wf) everything returned is a valid combination (C03_sound), and under two "
+            "computable conditions on query and state (in_tree_hyp, forbidden_aggs_hyp; each proved necessary by a reachable witness) "
+            "nothing valid is omitted either (C03_exact_sharing, C03_exact_sharing_reachable); from the query string (Model/DecodeQC.v: regenerated query schemas + the lib.py request-group "
             "assembly + value parsers) every accepted query satisfies query_wf, the assumption of the candidate theorems "
             "(C03_query_accepted_wf; tie: the real handler on generated query strings with the search replaced by a capture). NOT proved: completeness with sharing providers - it is FALSE: theorems "
-            "C03_refuted_anchor_dedup and C03_refuted_in_tree_pin exhibit states and queries (replayed on the application on every run, "
+            "C03_refuted_anchor_dedup, C03_refuted_in_tree_pin and C03_needs_forbidden_aggs_hyp exhibit states and queries (replayed on the application on every run, "
             "known findings) on which valid candidates are omitted; a nested sharing provider gives 500 (known finding). Elsewhere equality "
             "is COMPARED, not proved: every generated case is evaluated three ways inside Coq (application answer, code model, "
             "specification); any unclassified difference is a violation with the query as replay.",
